@@ -143,7 +143,7 @@ package stackage
 //@ ensures[C08:Replace.translated] r != nil && ok ==> cs != 0 && slot(r, cs) == x
 //@ ensures[C09:Replace.ro] r != nil && bit(o, 0x0080) ==> !ok
 //@ ensures[C17:Replace.nil] r == nil ==> !ok
-//@ modifies Mem_Val[arr(hdr(r))]
+//@ modifies Mem_Val[arr(hdr(r))], F_nodeConfig_ldr[cfgOf(r)]
 
 //@ func (Stack).Swap
 //@ tags C01
